@@ -160,7 +160,9 @@ def run_kills(unit, unit_dir, kills):
         hit = {'n': 0}
 
         def mutate(file, path, text):
-            if k['target'] in path and k['find'] in text:
+            tgt = k['target']
+            hit_t = path.endswith(tgt[:-1]) if tgt.endswith('$') else (tgt in path)
+            if hit_t and k['find'] in text:
                 hit['n'] += 1
                 return text.replace(k['find'], k['replace'], 1)
             return text
